@@ -38,6 +38,19 @@ structure Tx (P S : Type) where
   init : P → S
   update : P → S → P → Except Err (P × S)   -- (grads, state, params) ↦ (updates, state')
 
+/-! ### step counters -/
+
+/-- width of a step counter: `none` = a Python `int` (unbounded; Linen `TrainState.step` starts as the
+Python `0`), `some w` = a `w`-bit integer array (`jnp.asarray(step)` is int32, `Optimizer.step` is
+uint32, a caller may pass int8/uint8/int16). A fixed-width counter is represented by its bit pattern,
+a natural number `< 2^w` (the signed reading is a decoding of the same bits). -/
+abbrev Width := Option Nat
+
+/-- `step + 1` in the counter's own arithmetic: JAX integer addition wraps modulo `2^w` -/
+def incStep : Width → Nat → Nat
+  | none, s => s + 1
+  | some w, s => (s + 1) % 2 ^ w
+
 /-! ### the hand-written loop: `tx.update` followed by `optax.apply_updates` -/
 
 structure Manual (P S : Type) where
@@ -49,21 +62,21 @@ structure Manual (P S : Type) where
 def manualInit (tx : Tx P S) (params : P) : Manual P S :=
   { params := params, optState := tx.init params, step := 0 }
 
-def manualStep (tx : Tx P S) (applyUpd : P → P → Except Err P) (m : Manual P S) (grads : P) :
+def manualStep (w : Width) (tx : Tx P S) (applyUpd : P → P → Except Err P) (m : Manual P S) (grads : P) :
     Except Err (Manual P S) :=
   match tx.update grads m.optState m.params with
   | .error e => .error e
   | .ok (updates, s') =>
     match applyUpd m.params updates with
     | .error e => .error e
-    | .ok p' => .ok { params := p', optState := s', step := m.step + 1 }
+    | .ok p' => .ok { params := p', optState := s', step := incStep w m.step }
 
-def manualLoop (tx : Tx P S) (applyUpd : P → P → Except Err P) : Manual P S → List P → Except Err (Manual P S)
+def manualLoop (w : Width) (tx : Tx P S) (applyUpd : P → P → Except Err P) : Manual P S → List P → Except Err (Manual P S)
   | m, [] => .ok m
   | m, g :: gs =>
-    match manualStep tx applyUpd m g with
+    match manualStep w tx applyUpd m g with
     | .error e => .error e
-    | .ok m' => manualLoop tx applyUpd m' gs
+    | .ok m' => manualLoop w tx applyUpd m' gs
 
 /-! ### Python nested-dict pytrees (Linen params) -/
 
@@ -142,7 +155,7 @@ def TrainState.create (owg : String) (tx : Tx (PT α) σ) (params : PT α) (fiel
   | .ok false => .ok { step := 0, params := params, optState := tx.init params, fields := fields }
 
 /-- `TrainState.apply_gradients(grads=…, **kwargs)` -/
-def TrainState.applyGradients [Add α] (owg : String) (tx : Tx (PT α) σ) (s : TrainState α σ X)
+def TrainState.applyGradients [Add α] (w : Width) (owg : String) (tx : Tx (PT α) σ) (s : TrainState α σ X)
     (grads : PT α) (kwargs : List (String × X)) : Except Err (TrainState α σ X) :=
   match grads.hasKey owg with
   | .error e => .error e
@@ -162,7 +175,7 @@ def TrainState.applyGradients [Add α] (owg : String) (tx : Tx (PT α) σ) (s : 
           | .ok gOwg =>
             match replaceFields s.fields kwargs with
             | .error e => .error e
-            | .ok fs => .ok { step := s.step + 1,
+            | .ok fs => .ok { step := incStep w s.step,
                               params := .dict [("params", newPOpt), (owg, gOwg)],
                               optState := newOpt, fields := fs }
   | .ok false =>
@@ -174,15 +187,15 @@ def TrainState.applyGradients [Add α] (owg : String) (tx : Tx (PT α) σ) (s : 
       | .ok newParams =>
         match replaceFields s.fields kwargs with
         | .error e => .error e
-        | .ok fs => .ok { step := s.step + 1, params := newParams, optState := newOpt, fields := fs }
+        | .ok fs => .ok { step := incStep w s.step, params := newParams, optState := newOpt, fields := fs }
 
 /-- a history of `apply_gradients` calls (no kwargs), stopping at the first exception -/
-def TrainState.run [Add α] (owg : String) (tx : Tx (PT α) σ) : TrainState α σ X → List (PT α) → Except Err (TrainState α σ X)
+def TrainState.run [Add α] (w : Width) (owg : String) (tx : Tx (PT α) σ) : TrainState α σ X → List (PT α) → Except Err (TrainState α σ X)
   | s, [] => .ok s
   | s, g :: gs =>
-    match s.applyGradients owg tx g [] with
+    match s.applyGradients w owg tx g [] with
     | .error e => .error e
-    | .ok s' => TrainState.run owg tx s' gs
+    | .ok s' => TrainState.run w owg tx s' gs
 
 /-! ### NNX: `State`s of `VariableState`s -/
 
@@ -222,7 +235,7 @@ def NTrainState.create (tx : Tx P S) (params : P) (step : Nat) (fields : List (S
   { params := params, optState := tx.init params, step := step, fields := fields }
 
 /-- `nnx.TrainState.apply_gradients(grads, **kwargs)` -/
-def NTrainState.applyGradients (tx : Tx P S) (applyUpd : P → P → Except Err P) (s : NTrainState P S X)
+def NTrainState.applyGradients (w : Width) (tx : Tx P S) (applyUpd : P → P → Except Err P) (s : NTrainState P S X)
     (grads : P) (kwargs : List (String × X)) : Except Err (NTrainState P S X) :=
   match tx.update grads s.optState s.params with
   | .error e => .error e
@@ -232,14 +245,14 @@ def NTrainState.applyGradients (tx : Tx P S) (applyUpd : P → P → Except Err 
     | .ok params =>
       match replaceFields s.fields kwargs with
       | .error e => .error e
-      | .ok fs => .ok { params := params, optState := optState, step := s.step + 1, fields := fs }
+      | .ok fs => .ok { params := params, optState := optState, step := incStep w s.step, fields := fs }
 
-def NTrainState.run (tx : Tx P S) (applyUpd : P → P → Except Err P) : NTrainState P S X → List P → Except Err (NTrainState P S X)
+def NTrainState.run (w : Width) (tx : Tx P S) (applyUpd : P → P → Except Err P) : NTrainState P S X → List P → Except Err (NTrainState P S X)
   | s, [] => .ok s
   | s, g :: gs =>
-    match s.applyGradients tx applyUpd g [] with
+    match s.applyGradients w tx applyUpd g [] with
     | .error e => .error e
-    | .ok s' => NTrainState.run tx applyUpd s' gs
+    | .ok s' => NTrainState.run w tx applyUpd s' gs
 
 /-! ### `flax.nnx.Optimizer` -/
 
@@ -338,7 +351,7 @@ def Optimizer.create (tx : NTx α) (sel : Path → VarInfo → Bool) (m : Model 
   { step := 0, model := m, optState := (tx.init (stateOf sel m)).map wrapLeaf }
 
 /-- `Optimizer.update(grads)`: the object state after the call and the exception raised, if any -/
-def Optimizer.update [Add α] (tx : NTx α) (sel : Path → VarInfo → Bool) (o : Optimizer α) (grads : NState α) :
+def Optimizer.update [Add α] (w : Width) (tx : NTx α) (sel : Path → VarInfo → Bool) (o : Optimizer α) (grads : NState α) :
     Optimizer α × Option Err :=
   let params := stateOf sel o.model
   let optState := o.optState.map unwrapLeaf
@@ -348,7 +361,7 @@ def Optimizer.update [Add α] (tx : NTx α) (sel : Path → VarInfo → Bool) (o
     match applyUpdatesN params updates with
     | .error e => (o, some e)
     | .ok newParams =>
-      let o1 := { o with step := o.step + 1 }
+      let o1 := { o with step := incStep w o.step }
       match updateModel o1.model newParams with
       | .error e => (o1, some e)
       | .ok m =>
@@ -357,12 +370,12 @@ def Optimizer.update [Add α] (tx : NTx α) (sel : Path → VarInfo → Bool) (o
         ({ o2 with optState := r.1 }, r.2)
 
 /-- a history of `update` calls; stops at the first exception -/
-def Optimizer.run [Add α] (tx : NTx α) (sel : Path → VarInfo → Bool) : Optimizer α → List (NState α) → Optimizer α × Option Err
+def Optimizer.run [Add α] (w : Width) (tx : NTx α) (sel : Path → VarInfo → Bool) : Optimizer α → List (NState α) → Optimizer α × Option Err
   | o, [] => (o, none)
   | o, g :: gs =>
-    match o.update tx sel g with
+    match o.update w tx sel g with
     | (o', some e) => (o', some e)
-    | (o', none) => Optimizer.run tx sel o' gs
+    | (o', none) => Optimizer.run w tx sel o' gs
 
 /-- what the hand-written loop would hold for this Optimizer: the selected params, the optax state
 as optax sees it, the step -/
